@@ -58,7 +58,9 @@ def fanout_sweep(ctx, F, prefix, method):
     inc_bbs = set()
     idx_locals = set()
     for c in b.calls():
-        if strip_generics(c.callee) in ("core::ops::index::IndexMut::index_mut", "core::ops::index::Index::index") and len(c.args) > 1:
+        if strip_generics(c.callee) in ("core::ops::index::IndexMut::index_mut", "core::ops::index::Index::index", "core::slice::<impl [T]>::get_mut",
+                                        "core::slice::<impl [T]>::get", "alloc::vec::Vec::swap_remove", "alloc::vec::Vec::remove") and len(c.args) > 1 \
+                and "usize" in (c.arg_tys[1] if len(c.arg_tys) > 1 else "usize"):
             r = flow.root_local(b, c.args[1])
             if r is not None:
                 idx_locals.add(r)
